@@ -293,7 +293,8 @@ def dense_cases(ctx):
             for wh in ('absent', 'identity', 'mixing'):
                 spec = {'geometry': geo, 'n_channels': nc, 'n_templates': nt, 'n_spikes': nt + 2,
                         'shanks': sh, 'whitening': wh, 'profile': chunk, 'features': 'absent',
-                        'tfeatures': 'absent', 'raw': False, 'nsw': 3, 'fill': ctx.seed}
+                        'tfeatures': 'absent', 'raw': False, 'nsw': 3, 'fill': ctx.seed,
+                        'template_dtype': 'float64' if wh == 'identity' else 'float32'}
                 cases.append({'kind': 'dense', 'spec': spec,
                               'n_closest': [12, 2, 3] if nc <= 6 else [12, 3]})
     return cases
